@@ -236,21 +236,12 @@ def _c22_harnesses():
     hs = []
     for pre in range(9):
         for op in range(10):
-            if pre >= 3 and op in (3, 4):
-                # a Success/Failure message published into a state that ignores it is dropped by the real code; the
-                # destructor of its receipts vector costs CBMC > 12 GB. The ignoring arm (`s => s`) does not look at the
-                # kind; it is covered with the other five publication kinds.
-                continue
-            if pre in (4, 7) and op != 8:
-                # two-status state / its successor: every operation other than a read drops a status whose destructor
-                # (receipts vector) exhausts 12 GB in CBMC; these states share the ignoring arm (`s => s`) with the
-                # other terminal states, which are covered.
-                continue
             for alt in ("a", "b"):
                 hs.append(H(f"c22_p{pre}_o{op}_{alt}", [_TUS + "add_msg", _TUS + "add_failure", _TUS + "try_next", _TUS + "close_recv", _TUS + "is_closed"],
-                            f"from: {_C22_PRE[pre]} ({'Submitted/PreConfirmationSuccess/Success/squeeze-out' if alt == 'a' else 'PreConfirmationFailure/squeeze-out'} kinds); "
+                            f"from: {_C22_PRE[pre]} ({'Submitted/PreConfirmationSuccess/Success' if alt == 'a' else 'PreConfirmationFailure/Failure/squeeze-out'} kinds); "
                             f"operation: {_C22_OP[op]}; all u64 publication numbers",
-                            tiers=("quick", "thorough") if alt == "a" else ("thorough",), timeout={"quick": 600, "thorough": 900}, mem_gb=10))
+                            tiers=("quick", "thorough") if alt == "a" else ("thorough",), timeout={"quick": 900, "thorough": 1200}, mem_gb=12,
+                            unwindset=[(r"drop_glue.*(7receipt7Receipt|6output6Output|7fuel_tx)", 1)]))
     return hs
 PROPS["C22"] = {
     "crate": "txstatus",
@@ -260,7 +251,9 @@ PROPS["C22"] = {
                    "and what was delivered is checked: only published statuses, in publication order, no duplicates, nothing "
                    "after a final status or after the subscriber closed, a drained subscriber receives the next publication and "
                    "its stream ends after a final one.",
-    "bounds": "one operation from each of 9 buffer states x 10 operations (publication kinds enumerated, numbers symbolic u64); "
+    "bounds": "one operation from each of 9 buffer states x 10 operations = 90 instances per kind set (quick: one kind set, thorough: both; "
+              "publication kinds enumerated, numbers symbolic u64); the destructor loop over a status' receipts vector is limited to 0 "
+              "iterations with the unwinding assertion on (payload vectors are empty); "
               "sequences longer than state-reaching prefix + 1 operation + drain are covered by induction over the 9 states",
     "outside": "UpdateSender (HashMap registry of subscribers, tokio mpsc, subscription limits, drop handling), the manager and "
                "the status cache; payload contents of the statuses (receipts, outputs)",
